@@ -590,9 +590,9 @@ func (h *hCtx) emitStore(c *chainT, o *objT, op, eq string) {
 }
 
 // liveDigest reads the object back from the REAL store under exactly (kind, token, nonce) and recomputes its checkpoint
-// under the chain's current gravity id; nil when no such object is stored.
+// under the gravity id of the chain's parameters; nil when no such object is stored.
 func (h *hCtx) liveDigest(c *chainT, kind, token string, nonce uint64) []byte {
-	gid := c.k.GetGravityID(h.ctx)
+	gid := c.gid
 	var d []byte
 	var err error
 	switch kind {
@@ -1351,7 +1351,9 @@ func (h *hCtx) setupChain(name string, k crosschainkeeper.Keeper, nOracles int, 
 	if err := k.SetParams(h.ctx, &params); err != nil {
 		h.t.Fatalf("SetParams: %v", err)
 	}
-	c.gid = k.GetGravityID(h.ctx)
+	// the gravity id is taken from the parameters that were set, NOT read back through the keeper: the monitors must not
+	// inherit a stale or otherwise wrong id from the code under test
+	c.gid = params.GravityId
 	h.out.Emit(fmt.Sprintf("chain %s %s %s", name, map[bool]string{true: "tron", false: "eth"}[c.tron], gidHex(c.gid)), "ok")
 	po := &types.ProposalOracle{}
 	for i := 0; i < nOracles; i++ {
